@@ -26,7 +26,7 @@ RULE = ('cases = seeded data sets (few bytes .. hundreds of fragments; nested se
         'associations incl. the SAME instance UID, under seeded schedules; fault configuration: '
         'ENOSPC/EIO at the n-th write, RST, stalls; non-trivial = multi-fragment or concurrent; '
         'distinct = distinct scheduler signatures'
-        '; hot family (2-3 associations, line-level pre-emption with parking in the file-building functions); slow-receiver family (2-32 KiB of buffering, storing side stalled 6-45 s in mid-transfer)')
+        '; hot family (2-3 associations, line-level pre-emption with parking in the file-building functions); slow-receiver family (2-32 KiB of buffering, storing side stalled 6-45 s in mid-transfer); split family: CT into files, MR in memory, alternating on one association')
 ASSUMPTIONS = ['pydicom is trusted to encode/decode data sets at both ends (the byte-level '
                'comparison is independent of it)', 'under injected disk errors / RST a store may '
                'fail or stay unacknowledged, but an acknowledged one must be right and older '
@@ -55,6 +55,15 @@ def cases(tier, seed):
                    slow=dict(cap=rnd.choice([2048, 8192, 32768]),
                              stall=rnd.choice([6.0, 12.0, 45.0]), at=rnd.randint(60, 400)),
                    seed=seed * 100057 + i)
+    # one storage class is received into files, the other in memory, and instances of both
+    # follow each other on ONE association
+    for i in range(80 if tier == 'quick' else 3000):
+        yield dict(ts=rnd.choice(sorted(TSS)), cmax=rnd.choice([128, 1024, 16384]),
+                   smax=rnd.choice([128, 1024, 16384]), recv='split',
+                   source=rnd.choice(['ds', 'file']), nclients=rnd.choice([1, 1, 2]),
+                   nstores=rnd.randint(2, 4), same_uid=False,
+                   outcome=rnd.choice(['success', 'warning']), size=rnd.choice([0, 100, 900]),
+                   fault=None, align=False, mixed_ts=False, seed=seed * 100069 + i)
     # (the bulk comes last so that a wall-clock budget cut never drops the family above)
     n = 1500 if tier == 'quick' else 100000
     for i in range(n):
@@ -196,7 +205,12 @@ def run_case(case):
             # the storing entity is also a storage USER (a router, a C-MOVE provider) and was
             # told so first
             srv.add_scu(sopclass.storage_scu, [CT, MR])
-        srv.add_scp(store_mem if case['recv'] == 'mem' else store_files)
+        if case['recv'] == 'split':
+            store_files.sop_classes = [CT]
+            store_mem.sop_classes = [MR]
+            srv.add_scp(store_files).add_scp(store_mem)
+        else:
+            srv.add_scp(store_mem if case['recv'] == 'mem' else store_files)
         world.serve_ae(srv, ADDR)
         results = []         # per store: dict(uid, bytes, status or exc, acked)
         shared_uid = '1.2.826.0.1.777.%d' % rnd.randrange(10 ** 6)
@@ -207,6 +221,8 @@ def run_case(case):
                 uid_ = shared_uid if case['same_uid'] else '1.2.826.0.1.%d.%d.%d' % (
                     c, k, rnd.randrange(10 ** 6))
                 sop = rnd.choice([CT, MR])
+                if case['recv'] == 'split':
+                    sop = [CT, MR][(k + c) % 2]
                 ds = make_ds(rnd, uid_, sop, case['size'] + rnd.choice([0, 1, 2]))
                 if case.get('align'):
                     # make the encoded data set an exact multiple of the fragment payload
